@@ -277,6 +277,9 @@ def run(ctx):
                         norm(narrowing[0])[:100] if narrowing else 'is_iterable',
                         'is_iterable no longer means "can be iterated": fallback aliases given as a set, frozenset, dict view or generator are treated '
                         'as "no fallback aliases", so an entry recorded under a fallback alias is answered by the missing-key policy instead'))
+    # ---- C02.n every captured argument is part of the key (shared with C06.d): a call is never answered with a value recorded for another call
+    from . import common as _cm2
+    _cm2.import_clauses(ctx, res, 'C06', ['C06.d'], 'C02', 'C02.n', 'R-DECISION', 'capture selection table of the key builder', floor=4)
     return res
 
 
